@@ -191,7 +191,8 @@ fn fixed_names() -> Vec<String> {
         "1234567.12", "abcdefgh", "abcdefghi", "ABCDEFGH.TXT", "ABCDEFGH", "a b.c d", "abc...", "abcdefgh.", "abcdefgh .",
         "12345678 ", "12345678.", "12345678..", "12345678.123 ", "12345678.123.", "1234567 8", "+", "a+", ",;=[]", "[a]",
         "a~1", "A~1", "ABCDEF~1", "ABCDEF~1.TXT", "AB12CD~1", "~", "~1", "~1.~1", "_", "__", "a_b", "a*b", "a/b", "a\\b",
-        "a:b", "a?b", "a<b", "a>b", "a|b", "a\"b", "a\u{7f}b", "a\u{0}b", "a\tb", "a\u{80}", "a\u{7f}", "con", "NUL.txt",
+        "a:b", "a?b", "a<b", "a>b", "a|b", "\u{e9}.txt", "\u{e9}.", "\u{e9}..", ".\u{e9}", "\u{65e5}.\u{672c}.\u{8a9e}",
+        "\u{1f600}.a", "\u{1f600}.", ".\u{1f600}", "\u{e9}\u{e9}\u{e9}\u{e9}\u{e9}\u{e9}\u{e9}\u{e9}\u{e9}.\u{e9}\u{e9}\u{e9}\u{e9}", "\u{7ff}.\u{800}", "a\"b", "a\u{7f}b", "a\u{0}b", "a\tb", "a\u{80}", "a\u{7f}", "con", "NUL.txt",
         "A.B.C.D.E.F", ".a.b", "..a", "a..", " . a", "\u{5}abc", "\u{e5}abc", "a\u{e5}", "a\u{5}", "Ab", "aB.Cd",
     ]
     .iter()
@@ -517,11 +518,18 @@ pub fn run(tier: Tier, seed: u64, out: &mut dyn Write) {
     for v in 0x80..=0xFFFFu32 {
         if let Some(c) = char::from_u32(v) {
             let boundary = matches!(v, 0x80..=0x82 | 0x7FE..=0x801 | 0xD7FE..=0xD7FF | 0xE000..=0xE001 | 0xFFFC..=0xFFFF);
+            let sel = boundary || v % gen_stride == gen_phase;
             for n in positions(c).iter() {
                 emit_validate(out, n);
-                if boundary || v % gen_stride == gen_phase {
+                if sel {
                     emit_gen_new(out, n);
                 }
+            }
+            if sel {
+                // multi-byte first character followed by the extension dot (byte-index arithmetic of `new`)
+                emit_gen_new(out, &format!("{}.x", c));
+                emit_gen_new(out, &format!("{}{}.{}", c, c, c));
+                emit_generate(out, &format!("{}.x{}", c, c), &[], 3);
             }
         }
     }
@@ -541,6 +549,11 @@ pub fn run(tier: Tier, seed: u64, out: &mut dyn Write) {
             if i < 200 {
                 emit_gen_new(out, n);
             }
+        }
+        if i < 200 {
+            emit_gen_new(out, &format!("{}.x", c));
+            emit_gen_new(out, &format!("{}.{}.{}", c, c, c));
+            emit_generate(out, &format!("{}", c), &[], 3);
         }
     }
 
@@ -566,7 +579,8 @@ pub fn run(tier: Tier, seed: u64, out: &mut dyn Write) {
     let special: Vec<String> = [
         "TextFile.Mine.txt", "x.txt", "Foo", "Foo+1.baR", ".foo", ".", "..", "...", " ", "a", "ab", "abc", "a.b", "ABCDEF",
         "ABCDEFG", "ABCDEFGH", "ABCDEFGHI", "abcdefghi.jklm", "a\u{7fcf}", "a\u{7fce}", "a\u{7fcd}", "a\u{7fc0}", "a b",
-        "a\u{e9}.\u{e9}", "12345678.123", "~1", "A~1", "AB0000~1", "x.y.z",
+        "a\u{e9}.\u{e9}", "12345678.123", "~1", "A~1", "AB0000~1", "x.y.z", "", "\u{e9}", "\u{e9}.txt",
+        "\u{65e5}\u{672c}\u{8a9e}.txt", "\u{1f600}\u{1f600}.\u{1f600}", ".a", "\u{e9}a",
     ]
     .iter()
     .map(|s| s.to_string())
@@ -613,6 +627,8 @@ pub fn run(tier: Tier, seed: u64, out: &mut dyn Write) {
         vec!["TextFile.Mine.txt".to_string(), "TextFile.Yours.txt".to_string(), "TextFiles.txt".to_string(), "TeXtFi".to_string() + " le.txt"],
         vec![".".to_string()],
         vec!["a b".to_string(), "a  b".to_string(), "a.b c".to_string()],
+        vec!["\u{e9}.txt".to_string(), "\u{e8}.txt".to_string(), "\u{65e5}.txt".to_string()],
+        vec!["".to_string()],
     ];
     for (k, names) in grow_names.iter().enumerate() {
         let steps = if k == 0 { big + 5 } else { tier.pick(60, 200) };
